@@ -187,11 +187,15 @@ def create(req, sock, client, server, cfg):
     # set the path and script name
     path_info = req.path
     if script_name:
-        if not path_info.startswith(script_name):
+        # SCRIPT_NAME is a prefix of path segments, not of characters:
+        # "/app" covers "/app" and "/app/...", not "/application"
+        rest = path_info[len(script_name):]
+        if not path_info.startswith(script_name) or (
+                rest[:1] not in ("", "/") and not script_name.endswith("/")):
             raise ConfigurationProblem(
                 "Request path %r does not start with SCRIPT_NAME %r" %
                 (path_info, script_name))
-        path_info = path_info[len(script_name):]
+        path_info = rest
     environ['PATH_INFO'] = util.unquote_to_wsgi_str(path_info)
     environ['SCRIPT_NAME'] = script_name
 
